@@ -54,4 +54,49 @@ theorem tex2txt_repl_ok (T : PTables) (fuel : Nat) (latex : Str) (o : Options) (
     have := (replacePhrases_ok T.toTables r0.txt (r0.pos.map (· - 1)) o.repl (by simpa using hlen)).2 q hq
     simpa using this
 
+/-- what `--repl` does to one entry of a multi-language result (positions are one-based there): only the parts of
+    the MAIN language are rewritten, each piece by `replace_phrases` on its own text and map -/
+def replPart (T : PTables) (o : Options) (e : Str × List (Str × List Nat)) : Str × List (Str × List Nat) :=
+  if e.1 == o.lang then
+    (e.1, e.2.map (fun tp =>
+      ((replacePhrases T.toTables tp.1 (tp.2.map (· - 1)) o.repl).1,
+       (replacePhrases T.toTables tp.1 (tp.2.map (· - 1)) o.repl).2.map (· + 1))))
+  else e
+
+/-- **multi-language mode, every source text**: `--repl` does nothing but apply `replace_phrases` to the pieces of the main
+    language of the result obtained without it; the pieces of all other languages, unknowns and diagnostics are the same -/
+theorem tex2txt_repl_commutes_ml (T : PTables) (fuel : Nat) (latex : Str) (o : Options) (thresh : Nat) (fs : FS)
+    (r0 : T2TResult)
+    (h0 : tex2txt T fuel latex { o with hasRepl := false } true thresh fs = .ok r0) :
+    tex2txt T fuel latex { o with hasRepl := true } true thresh fs =
+      .ok { r0 with parts := r0.parts.map (replPart T o) } := by
+  unfold tex2txt at h0 ⊢
+  have hinit : initParser T fuel { o with hasRepl := true } = initParser T fuel { o with hasRepl := false } := rfl
+  have hst : initialState T { o with hasRepl := true } true fs = initialState T { o with hasRepl := false } true fs := rfl
+  simp only [hinit, hst] at h0 ⊢
+  generalize hrun : (do initParser T fuel { o with hasRepl := false }
+                        parse T fuel latex o.defs
+                          (if o.extr.isEmpty then [] else (splitOn ',' o.extr []).map (fun s => '\\' :: s)) : M (List Tok))
+      (initialState T { o with hasRepl := false } true fs) = res at h0 ⊢
+  cases res with
+  | fatal m => simp at h0
+  | crash c => simp at h0
+  | outOfFuel => simp at h0
+  | ok p =>
+    obtain ⟨toks, st⟩ := p
+    simp only [Bool.not_true, Bool.false_eq_true, if_false] at h0 ⊢
+    cases hml : getTxtPosML toks o.lang thresh (st.rots.map (fun r => (r.code, r.chg))) with
+    | none => simp [hml] at h0
+    | some pr =>
+      simp only [hml] at h0 ⊢
+      injection h0 with h0
+      subst h0
+      simp only [Bool.false_and, Bool.true_and, if_false, List.map_map, Outcome.ok.injEq, T2TResult.mk.injEq, true_and, and_true,
+        List.map_id']
+      apply List.map_congr_left
+      intro e _
+      by_cases he : e.1 = o.lang
+      · simp [replPart, he, List.map_map, Function.comp_def]
+      · simp [replPart, he]
+
 end Yalafi
